@@ -1079,8 +1079,12 @@ void janet_buffer_format(
                     if (form[2] == '\0')
                         janet_buffer_push_bytes(b, s, l);
                     else {
-                        if (l != (int32_t) strlen((const char *) s))
+                        if (NULL != memchr(s, 0, (size_t) l))
                             janet_panic("string contains zeros");
+                        if (janet_checktype(argv[arg], JANET_BUFFER)) {
+                            /* The bytes of a buffer are not 0 terminated, snprintf needs a C string */
+                            s = janet_string(s, l);
+                        }
                         if (!strchr(form, '.') && l >= 100) {
                             janet_panic("no precision and string is too long to be formatted");
                         } else {
